@@ -555,6 +555,7 @@ class TL(float):
     """a loss value carrying the magnitude its float evaluation is accurate to"""
     scale = 0.0
     xmax = 0.0
+    lay = 0.0
 
 
 def true_loss(module, inp, target, kspec):
@@ -841,8 +842,15 @@ def _scenario_steps(ctx: Ctx, scn, collect, shared_inner=None):
     solver.opt = opt
     reject = scn.get("reject", 0)
     solver.limit = reject + 40
-    cur_args = [inp, target]      # the tensors of the current call (same data; layout may differ from call to call)
-    tl = lambda: true_loss(module, cur_args[0], cur_args[1], kspec)
+    cur_args = [inp, target, "plain"]      # the tensors of the current call (same data; layout may differ from call to call)
+
+    def tl():
+        v = true_loss(module, cur_args[0], cur_args[1], kspec)
+        if cur_args[2] in ("strided", "transposed"):
+            # the user model's forward may legitimately run on a contiguous copy: its rounding differs (only) by this much
+            w = true_loss(module, inp, target, kspec)
+            v.lay = abs(float(v) - float(w))
+        return v
     lie = scn["family"] in ("so3", "se3", "mixed")
     kinds = lie_kinds(module)
     forms = scn.get("forms") or []
@@ -854,6 +862,7 @@ def _scenario_steps(ctx: Ctx, scn, collect, shared_inner=None):
     def fail(what):
         ctx.fail(scn, what)
 
+    layout_slack = 0.0
     drift = 0.0           # |L(restored params) - L(params before the trials)| accumulated since the last kept trial
     prev_loss = None      # optimizer.loss after the previous call (float)
     prev_pg = None
@@ -886,9 +895,10 @@ def _scenario_steps(ctx: Ctx, scn, collect, shared_inner=None):
         # the user model's forward rounds differently for another memory layout of the same data: the loss cached by
         # the previous call may differ from the loss evaluated through this call's tensors by that much
         prev_true = float(tl())
-        cur_args[0], cur_args[1] = inp_c, tgt_c
+        cur_args[0], cur_args[1], cur_args[2] = inp_c, tgt_c, form
         given_true = tl()
-        layout_slack = abs(prev_true - float(given_true)) if call else 0.0
+        # (accumulated until a kept trial refreshes the cache)
+        layout_slack = (layout_slack + abs(prev_true - float(given_true))) if call else 0.0
         had_cache = hasattr(opt, "loss")
         cached = float(opt.loss) if had_cache else None
         pg_before_call = pg_state(pg) if is_lm else None
@@ -933,7 +943,7 @@ def _scenario_steps(ctx: Ctx, scn, collect, shared_inner=None):
                 or (is_lm and not math.isfinite(float(opt.last)))):
             ctx.count("abandoned.non-finite")
             break
-        tol_loss = lambda v: 64 * eps * (max(abs(v), getattr(v, "scale", 0.0)) + 1e-300) + 2 * drift
+        tol_loss = lambda v: 64 * eps * (max(abs(v), getattr(v, "scale", 0.0)) + 1e-300) + 2 * drift + 2 * getattr(v, "lay", 0.0)
         tol_cache = lambda v: tol_loss(v) + 2 * layout_slack
 
         # ---- purity of the caller's tensors (views / slices of larger buffers), of parameter buffers outside the
@@ -1006,6 +1016,7 @@ def _scenario_steps(ctx: Ctx, scn, collect, shared_inner=None):
                 fail(f"gn-last: optimizer.last = {lastf!r} but the loss at the previous parameters is {given_true!r} (call {call})")
             gn_steps.append((0, retf))
             gn_obs.append((retf, lastf))
+            layout_slack = 0.0
             ctx.note_case(("gn", scn["family"], "ok", dtype, min(call, 3)), True)
             continue
 
@@ -1097,6 +1108,23 @@ def _scenario_steps(ctx: Ctx, scn, collect, shared_inner=None):
                 break
             up = ups[ui]
             ui += 1
+            # the trial point is Retr(parameters before the trial, D): for Euclidean parameters p + D entry by entry
+            # (also when the parameter is a non-contiguous view: an update applied to a private copy moves nothing)
+            if "D" in ev and up["params"] is not None:
+                off = 0
+                dflat = ev["D"].double().flatten()
+                for kd_, b_, t_ in zip(kinds, ev["params"], up["params"]):
+                    nel = b_.numel()
+                    if kd_ is None and off + nel <= dflat.numel():
+                        want = b_.double().flatten() + dflat[off:off + nel]
+                        err = (t_.double().flatten() - want).abs()
+                        tolu = 4 * eps * (b_.double().flatten().abs() + dflat[off:off + nel].abs()) + 1e-300
+                        if bool((err > tolu).any()):
+                            j_ = int((err / tolu).argmax())
+                            fail(f"update-applied: after update_parameter(D) entry {j_} of a Euclidean parameter is "
+                                 f"{float(t_.double().flatten()[j_])!r}, expected p + D = {float(want[j_])!r} (trial {t}, call {call})")
+                            break
+                    off += nel
             lt = with_params(module, up["params"], tl)
             if far(up["loss"], lt, tol_loss(lt), dtype):
                 fail(f"trial-loss: the loss given to strategy.update for trial {t} is {float(up['loss'])!r} but the robust loss "
@@ -1133,6 +1161,7 @@ def _scenario_steps(ctx: Ctx, scn, collect, shared_inner=None):
         prev_loss = optloss
         if kept:
             drift = 0.0
+            layout_slack = 0.0
 
         # ---- model requests: per-trial update + the whole loop
         kind = scn["strategy"]["kind"]
